@@ -374,6 +374,18 @@ def evolve (c : Cluster) (op : OpRec) : Cluster :=
       | none => c
     | _ => c) c
 
+/-- the structured replies the broker gave during an operation (ground truth), in contact order, and the cluster afterwards -/
+def truthBodies (c : Cluster) (op : OpRec) : Cluster × List (Bytes × Request × RespBody) :=
+  op.evs.foldl (fun (acc : Cluster × List (Bytes × Request × RespBody)) e => match e with
+    | .req h f _ => match Spec.parseFrame f with
+      | some r =>
+        let (c', b) := handleBody acc.1 h r
+        match b with
+        | some b => (c', acc.2 ++ [(h, r, b)])
+        | none => (c', acc.2)
+      | none => acc
+    | _ => acc) (c, [])
+
 def hostOf (b : BrokerMeta) : Bytes := b.host ++ strBytes ":" ++ strBytes (toString b.port)
 
 /-- what `topics()` must show after a full metadata load of this cluster -/
@@ -395,7 +407,9 @@ def judgeC10 (ops : List OpRec) : List String :=
     let s := { s with cluster := applySetup s.cluster op.setup }
     let s := trackSettings s op
     let c := s.cluster
-    let faulty := !c.faults.all (·.count == 0) || op.evs.any (fun e => match e with | .io _ _ => true | .connect _ ok => !ok | _ => false)
+    let ioFault := op.evs.any (fun e => match e with | .io _ _ => true | .connect _ ok => !ok | _ => false)
+    let faulty := !c.faults.all (·.count == 0) || ioFault
+    let bodies := (truthBodies c op).2
     let s := match op.toks with
     | [_, "topics"] =>
       if op.result == expectTopics c then s else viol s "C10-metadata-view" op s!"topics() shows `{op.result}`, the broker sent `{expectTopics c}`"
@@ -423,6 +437,18 @@ def judgeC10 (ops : List OpRec) : List String :=
         if op.result == fmtListOffsets want then s else viol s "C10-list-offsets" op s!"returned `{op.result}`, the brokers sent `{fmtListOffsets want}`"
       | _, _ => s
     | _ :: "fetch_group_offsets" :: g :: args =>
+      -- whatever was retried on the way: a call that succeeds returns the content of the reply that ended it, nothing of
+      -- the replies before it
+      let lastFetch : Option (List (Bytes × List (Int × Int))) := (bodies.filterMap fun (x : Bytes × Request × RespBody) => match x.2.2 with
+        | RespBody.offsetFetch ts => some (ts.map fun (tp : Bytes × List (Int × Int × Option Bytes × Int)) =>
+            (tp.1, tp.2.map fun (q : Int × Int × Option Bytes × Int) => (q.1, q.2.1)))
+        | _ => none).getLast?
+      let s := match lastFetch with
+        | some want =>
+          if op.result.startsWith "ok" && !ioFault && op.result != fmtOffsets want then
+            viol s "C10-group-offsets-final-reply" op s!"returned `{op.result}`, the reply that ended the call carried `{fmtOffsets want}`"
+          else s
+        | none => s
       if faulty || op.result.startsWith "err" then s else
       match fromHex g, parseTP args with
       | some g, some tps =>
@@ -439,18 +465,6 @@ def judgeC10 (ops : List OpRec) : List String :=
   s.out
 
 /-! ### C11 -/
-
-/-- the structured replies the broker gave during an operation (ground truth), in contact order, and the cluster afterwards -/
-def truthBodies (c : Cluster) (op : OpRec) : Cluster × List (Bytes × Request × RespBody) :=
-  op.evs.foldl (fun (acc : Cluster × List (Bytes × Request × RespBody)) e => match e with
-    | .req h f _ => match Spec.parseFrame f with
-      | some r =>
-        let (c', b) := handleBody acc.1 h r
-        match b with
-        | some b => (c', acc.2 ++ [(h, r, b)])
-        | none => (c', acc.2)
-      | none => acc
-    | _ => acc) (c, [])
 
 def kindOf (code : Int) : Int := (Model.kafkaCode code).getD 0
 
@@ -571,8 +585,12 @@ def judgeC14 (ops : List OpRec) : List String :=
       | _ :: "fetch_group_offsets" :: _ => 9
       | _ :: "fetch_group_topic_offset" :: _ => 9
       | _ => 0
-    let s := if api = 0 then s else
-      let watchdog := op.evs.any fun e => match e with | .io _ "send-fail" => true | _ => false
+    -- a call disturbed on the wire (other than by the harness's own request cap) is C15's subject: the answers the
+    -- specification broker computed may never have arrived
+    let capped := op.notes.any fun (n : List String) => n.head? == some "request-cap"
+    let wire := !capped && op.evs.any fun e => match e with | .io _ _ => true | .connect _ ok => !ok | _ => false
+    let s := if api = 0 || wire then s else
+      let watchdog := capped
       let s := if watchdog then viol s (if api = 8 then "C14-commit-never-returns" else "C14-never-returns") op
           s!"the call kept sending requests ({bodies.length} before the harness cut the connection), limit {s.retryMax}" else s
       if watchdog then s else
@@ -932,8 +950,15 @@ def judgeC07 (ops : List OpRec) : List String :=
         | some cm => if ps.earliest ≤ cm ∧ cm ≤ ps.hw then ((t, p), some cm)
                      else ((t, p), if byTime then none else fbOff ps)
         | none => ((t, p), if byTime ∧ anyCommitted then none else fbOff ps)
+      -- the reply that ended the look-up of the group's offsets: an error code in it (other than version 0's "nothing
+      -- stored" on a partition) means the committed offsets could not be determined
+      let lastFetchErr : Option Int := ((truthBodies c op).2.filterMap fun (x : Bytes × Request × RespBody) => match x.2.2 with
+        | RespBody.offsetFetch ts => some ((ts.flatMap fun (tp : Bytes × List (Int × Int × Option Bytes × Int)) =>
+            tp.2.filterMap fun (q : Int × Int × Option Bytes × Int) => if q.2.2.2 ≠ 0 ∧ q.2.2.2 ≠ 3 then some q.2.2.2 else none).head?)
+        | _ => none).getLast?.join
       if op.result == "ok" then
-        if want.any (·.2.isNone) then v s "C07-created-without-offset" op "creation succeeded although no start offset can be determined for a partition"
+        if lastFetchErr.isSome then v s "C07-created-despite-offset-fetch-error" op s!"creation succeeded although the group's offsets could not be read (the last answer carried error code {lastFetchErr.getD 0})"
+        else if want.any (·.2.isNone) then v s "C07-created-without-offset" op "creation succeeded although no start offset can be determined for a partition"
         else { s with expect := want.filterMap (fun (x : (Bytes × Int) × Option Int) => x.2.map fun o => (x.1, o)), pending := true }
       else { s with pending := false }
     | ["poll"] =>
@@ -1649,7 +1674,8 @@ def judgeC17 (ops : List OpRec) : List String :=
         ) s
       -- 1b. a partition due for a fetch of its own is fetched alone, oldest first; with nothing due every partition is asked for
       let step (q : List (Bytes × Int)) : List (List (Bytes × Int)) :=
-        if askedTPs.isEmpty then [q, q.tail]
+        -- a poll cut short on the wire shows some of its requests at most: nothing can be concluded from what is missing
+        if askedTPs.isEmpty || ioFault then [q, q.tail]
         else match q with
           | x :: rest => if askedTPs == [x] then (if failed then [rest, q] else [rest]) else []
           | [] => if totalAsked == s.nparts then [[]] else []
@@ -1876,7 +1902,9 @@ def judge (prop : String) (lines : List String) : List String :=
   | "C14" => judgeC14 ops
   | "C20" => judgeC20 ops
   -- the CRC setting is judged by its effect too (C04's demand, with the setting the builder / setters determine)
-  | "C16" => judgeC16 ops ++ (judgeC04 ops).map fun (l : String) => l.replace "C04-" "C16-crc-setting-"
+  | "C16" => judgeC16 ops ++ ((judgeC04 ops).map fun (l : String) => l.replace "C04-" "C16-crc-setting-")
+      -- … and so is the retry limit (C14's demand with the limit the setters determine)
+      ++ ((judgeC14 ops).map fun (l : String) => l.replace "C14-" "C16-retry-setting-")
   | "C07" => judgeC07 ops
   | "C19" => judgeC19 ops
   | "C05" => judgeC05 ops
